@@ -17,6 +17,8 @@ pub mod database;
 pub mod error;
 pub mod id;
 pub mod reader_thread_pool;
+#[cfg(feature = "verif-hooks")]
+pub mod verif;
 pub mod writer_thread_pool;
 
 const BLOOM_SEED: [u8; 32] = [
